@@ -352,6 +352,15 @@ func (e *Env) worker(i int) (*Worker, error) {
 	return e.pool[i], nil
 }
 
+// WorkerN returns worker i, starting it if needed.
+func (e *Env) WorkerN(i int) *Worker {
+	w, err := e.worker(i)
+	if err != nil {
+		e.HarnessError("cannot start worker: %v", err)
+	}
+	return w
+}
+
 // W0 returns worker 0 (for sequential set-up code).
 func (e *Env) W0() *Worker {
 	w, err := e.worker(0)
